@@ -11,6 +11,7 @@
 This module contains classes for XML Schema simple data types.
 """
 import re
+from copy import copy
 from collections.abc import Callable, Iterator
 from decimal import DecimalException, Decimal
 from functools import cached_property
@@ -471,9 +472,11 @@ class XsdSimpleType(XsdType, ValidationMixin[str | bytes, DecodedValueType]):
 
     def text_is_valid(self, text: str, context: ValidationContext | None = None) -> bool:
         if context is None:
-            self.schema.validation_context.clear()
-            self.raw_decode(text, 'lax', self.schema.validation_context)
-            return not self.schema.validation_context.errors
+            # Use a private copy: the schema's context is shared between threads
+            context = copy(self.schema.validation_context)
+            context.clear()
+            self.raw_decode(text, 'lax', context)
+            return not context.errors
         else:
             try:
                 self.raw_decode(text, 'strict', context)
